@@ -291,6 +291,8 @@ impl Driver {
                 }
                 key => {
                     let flags = entry.flags();
+                    #[cfg(compio_verif)]
+                    compio_log::verif::point("iour.cqe", key, more(flags) as u64);
                     if more(flags) {
                         let key = unsafe { BorrowedKey::from_raw(key as _) };
                         let mut key = key.borrow();
@@ -322,6 +324,12 @@ impl Driver {
     pub fn cancel(&mut self, key: ErasedKey) {
         instrument!(compio_log::Level::TRACE, "cancel", ?key);
         trace!("cancel RawOp");
+        #[cfg(compio_verif)]
+        compio_log::verif::point(
+            "iour.cancel",
+            key.as_raw() as u64,
+            self.inner.submission().is_full() as u64,
+        );
         unsafe {
             #[allow(clippy::useless_conversion)]
             if self
@@ -345,6 +353,8 @@ impl Driver {
         let entry = entry.user_data(user_data as _);
         self.push_raw(entry)?; // if push failed, do not leak the key. Drop it upon return.
         self.in_flight.insert(user_data);
+        #[cfg(compio_verif)]
+        compio_log::verif::point("iour.submit", user_data as u64, 0);
         key.into_raw();
         Ok(())
     }
@@ -420,10 +430,18 @@ impl Driver {
     fn push_blocking(&mut self, key: ErasedKey) {
         let waker = self.waker();
         let completed = self.completed_tx.clone();
+        #[cfg(compio_verif)]
+        let verif_id = key.as_raw() as u64;
+        #[cfg(compio_verif)]
+        compio_log::verif::point("blocking.dispatch", verif_id, 0);
         // SAFETY: we're submitting into the driver, so it's safe to freeze here.
         let mut key = unsafe { key.freeze() };
         let mut closure = move || {
+            #[cfg(compio_verif)]
+            compio_log::verif::point("blocking.start", verif_id, 0);
             let res = catch_unwind_io(AssertUnwindSafe(|| key.as_mut().carrier.call_blocking()));
+            #[cfg(compio_verif)]
+            compio_log::verif::point("blocking.done", verif_id, 0);
             let _ = completed.send(Entry::new(key.into_inner(), res));
             waker.wake();
         };
@@ -498,6 +516,8 @@ impl Drop for Driver {
             match entry.user_data() {
                 Self::CANCEL | Self::NOTIFY => {}
                 key => {
+                    #[cfg(compio_verif)]
+                    compio_log::verif::point("iour.drop.cqe", key, more(entry.flags()) as u64);
                     self.in_flight.remove(&(key as usize));
                     drop(unsafe { ErasedKey::from_raw(key as _) });
                 }
@@ -513,9 +533,13 @@ impl Drop for Driver {
         // `malloc_consolidate(): unaligned fastbin chunk detected` /
         // `corrupted double-linked list` during thread shutdown.
         unsafe { ManuallyDrop::drop(&mut self.inner) };
+        #[cfg(compio_verif)]
+        compio_log::verif::point("iour.ring_closed", 0, 0);
 
         // Free remaining in-flight keys. Safe now that the kernel is done.
         for user_data in self.in_flight.drain() {
+            #[cfg(compio_verif)]
+            compio_log::verif::point("iour.drop.free", user_data as u64, 0);
             drop(unsafe { ErasedKey::from_raw(user_data) });
         }
     }
